@@ -22,7 +22,9 @@ META = {
                   'compared for the lengths run, not modelled beyond INT_MAX.',
     'design_ref': '§6 C18',
 }
-REQUIRED = ['Librfn.C18.parser_safe', 'Librfn.C18.parser_no_fault', 'Librfn.C18.parser_ptr_within', 'Librfn.C18.dump_format']   # grows with the theorems
+REQUIRED = ['Librfn.C18.dump_format', 'Librfn.C18.dump_parse_roundtrip', 'Librfn.C18.parser_safe', 'Librfn.C18.parser_no_fault',
+            'Librfn.C18.parser_ptr_within', 'Librfn.C18.accepted_syntax', 'Librfn.C18.accepted_syntax_address_on_each_line',
+            'Librfn.C18.chunks_shape', 'Librfn.C18.chunks_flatten']
 
 BLANKS = b' \t\v\f\r'            # isspace minus newline
 XD = b'0123456789abcdefABCDEF'
